@@ -652,6 +652,49 @@ func run(args []string) error {
 		}
 	}
 
+	// ---- deterministic sweep over curve points with a tiny ordinate (|y| < 120): parsing, validity and
+	//      multiplication by +-1, +-2 (results are again such points).  The field code holds these
+	//      ordinates in non-canonical form at various places (findings fixed in 04aa20fed, 0989034ad).
+	for _, xh := range tinyY {
+		x, _ := hex.DecodeString(xh)
+		for _, pre := range []byte{2, 3} {
+			b := append([]byte{pre}, x...)
+			var code int
+			obs := ""
+			if Guard(func() { code = secp.PubkeyIsValid(b) }) {
+				obs = "panic"
+			} else {
+				obs = fmt.Sprint(code)
+			}
+			emit("tiny", "pkcode", []string{hx(b)}, obs, map[string]interface{}{"kind": "tinyy-sweep"}, true)
+			for _, k := range []*big.Int{bi(1), add(bigN, -1), bi(2), add(bigN, -2)} {
+				var out []byte
+				if Guard(func() { out = secp256k1.ECDH(b, b32(k)) }) {
+					obs = "panic"
+				} else if out == nil {
+					obs = "nil"
+				} else {
+					obs = hx(out)
+				}
+				emit("tiny", "ecdh", []string{hx(b), hn(k)}, obs, map[string]interface{}{"kind": "tinyy-sweep"}, true)
+			}
+			// recovery with r = this abscissa
+			sg := sigT{new(big.Int).SetBytes(x), g.validKey(), int(pre - 2)}
+			msg := b32(g.rand256())
+			sb := sg.bytes()
+			var rec []byte
+			if Guard(func() { rec, code = secp.RecoverPublicKey(sb[:64], msg, sg.recid) }) {
+				obs = "panic"
+			} else if rec != nil {
+				obs = fmt.Sprintf("%d %s", code, hx(rec))
+			} else {
+				obs = fmt.Sprintf("%d nil", code)
+			}
+			emit("tiny", "recover", []string{hx(msg), hx(sb)}, obs, map[string]interface{}{"kind": "tinyy-sweep"}, true)
+		}
+	}
+	hist.Add(fmt.Sprintf("tiny-ordinate-sweep=%d", len(caseJSON["tiny"])))
+
 	if f.Out == "" {
 		return fmt.Errorf("-out required")
 	}
